@@ -105,6 +105,7 @@ type ContractSet struct {
 	Standins  []Standin
 	Locks     []LockDiscipline
 	Unopaque  []Unopaque
+	Sweeps    map[string]string // `sweep Cxx safety`: the check of Cxx also discharges the safety obligations of every contract listed under other properties
 	PureFns   map[string]bool // `purefn pkg.Type.Field`: a func-typed field holding pure functions (deterministic in their arguments, no effect)
 	KeyTypes  []string // struct types used as map keys: values are terms of an uninterpreted sort built by an injective constructor
 	Files     []string
@@ -350,6 +351,19 @@ func (cs *ContractSet) loadContractText(path string, pkgPath string, text string
 				continue
 			}
 			cs.KeyTypes = append(cs.KeyTypes, fields[1])
+			cur = nil
+			lastText = nil
+			continue
+		case "sweep":
+			// sweep Cxx safety
+			if len(fields) != 3 || fields[2] != "safety" {
+				errf(i, "sweep Cxx safety")
+				continue
+			}
+			if cs.Sweeps == nil {
+				cs.Sweeps = map[string]string{}
+			}
+			cs.Sweeps[fields[1]] = fields[2]
 			cur = nil
 			lastText = nil
 			continue
